@@ -128,7 +128,7 @@ def generate(rnd, tier):
         trees = [t]
     lits = fml.sample_lits(cg, trees)
     numq = 0.9 if chance(rnd, 0.3) else 0.0
-    fg = fml.FGen(rnd, cg, lits, dict(numq=numq, unused=0.04, connectives=("and", "or", "not", "implies", "iff", "xor")[:rnd.randint(3, 6)]))
+    fg = fml.FGen(rnd, cg, lits, dict(numq=numq, unused=0.04, mexpr_depth=pick(rnd, [2, 2, 2, 3, 4]), connectives=("and", "or", "not", "implies", "iff", "xor")[:rnd.randint(3, 6)]))
     if name == "wide" and chance(rnd, 0.6):
         # verdicts that hinge on single children of the 40-children node
         T = pick(rnd, ["<i>", "<i>", "<d>", "<l>"])
@@ -138,6 +138,8 @@ def generate(rnd, tier):
         f = [pick(rnd, ["forall", "exists"]), T, "v1", "start", None, body]
     else:
         f = fg.formula([("start", "<start>")], rnd.randint(1, 3))
+    if chance(rnd, 0.2):
+        f = fml.reuse_names(rnd, f)
     return {"grammar": g, "gname": name, "tree": t, "formula": f}
 
 
